@@ -132,11 +132,16 @@ pub struct ChoiceRng {
     pub default: f64,
     pub script: Rc<RefCell<std::collections::VecDeque<f64>>>,
     pub draws: Rc<Cell<u64>>,
+    /// when non-empty, the default answer cycles through these fractions
+    pub cycle: Rc<Vec<f64>>,
 }
 
 impl ChoiceRng {
     pub fn constant(f: f64) -> Self {
-        ChoiceRng { default: f, script: Default::default(), draws: Default::default() }
+        ChoiceRng { default: f, script: Default::default(), draws: Default::default(), cycle: Default::default() }
+    }
+    pub fn cycling(c: Vec<f64>) -> Self {
+        ChoiceRng { default: 0.5, script: Default::default(), draws: Default::default(), cycle: Rc::new(c) }
     }
     pub fn set_next(&self, f: f64) {
         self.script.borrow_mut().push_back(f);
@@ -156,7 +161,8 @@ impl RngCore for ChoiceRng {
     }
     fn next_u64(&mut self) -> u64 {
         self.draws.set(self.draws.get() + 1);
-        let frac = self.script.borrow_mut().pop_front().unwrap_or(self.default);
+        let dflt = if self.cycle.is_empty() { self.default } else { self.cycle[((self.draws.get() - 1) % self.cycle.len() as u64) as usize] };
+        let frac = self.script.borrow_mut().pop_front().unwrap_or(dflt);
         // rand 0.8 Open01 for f64: (next_u64() >> 12) as the 52 mantissa bits
         let m = (frac.clamp(0.0, 0.999_999_999) * (1u64 << 52) as f64) as u64;
         m << 12
@@ -183,8 +189,42 @@ pub enum ClockCmd {
     SetProps,
 }
 
+/// free-running oscillator with a frequency error, steered by the clock commands
+#[derive(Clone, Debug)]
+pub struct Osc {
+    /// oscillator error in ppm (the thing the servo has to find)
+    pub err_ppm: f64,
+    /// frequency adjustment currently programmed by the servo
+    pub adj_ppm: f64,
+    /// anchor: at true time `base_true_ns` the clock read `base_local` (2^-32 ns)
+    pub base_true_ns: u64,
+    pub base_local: i128,
+    pub true_ns: u64,
+}
+
+impl Osc {
+    pub fn new(offset_ns: i64, err_ppm: f64) -> Osc {
+        Osc { err_ppm, adj_ppm: 0.0, base_true_ns: 0, base_local: (offset_ns as i128) << 32, true_ns: 0 }
+    }
+    /// local reading (2^-32 ns) at true time `t_ns`
+    pub fn local(&self, t_ns: u64) -> i128 {
+        let e = (t_ns - self.base_true_ns) as i128;
+        // elapsed * (1 + (err + adj) * 1e-6), in 2^-32 ns; the f64 product is exact enough
+        // because the anchor moves with every adjustment
+        let extra = (e as f64) * (self.err_ppm + self.adj_ppm) * 1e-6 * 4294967296.0;
+        self.base_local + (e << 32) + extra.round() as i128
+    }
+    fn reanchor(&mut self) {
+        let l = self.local(self.true_ns);
+        self.base_true_ns = self.true_ns;
+        self.base_local = l;
+    }
+}
+
 #[derive(Default)]
 pub struct ClockCore {
+    /// None: a perfect clock whose reading the harness sets directly
+    pub osc: Option<Osc>,
     pub now: Time,
     /// (issuing port tag, command, succeeded)
     pub log: Vec<(u16, ClockCmd, bool)>,
@@ -206,6 +246,18 @@ impl SimClock {
     pub fn new(core: Rc<RefCell<ClockCore>>, tag: u16) -> Self {
         SimClock { core, tag }
     }
+    /// true time has advanced: update the reading (oscillator model) or set it (perfect clock)
+    pub fn advance_to(core: &Rc<RefCell<ClockCore>>, true_ns: u64) {
+        let mut k = core.borrow_mut();
+        match &mut k.osc {
+            Some(o) => {
+                o.true_ns = true_ns;
+                let l = o.local(true_ns).max(0) as u128;
+                k.now = time_bits(l);
+            }
+            None => k.now = time_ns(true_ns),
+        }
+    }
     /// keep the clock coherent with a timestamp it is said to have produced
     pub fn saw(core: &Rc<RefCell<ClockCore>>, t: Time) {
         let mut k = core.borrow_mut();
@@ -220,7 +272,16 @@ impl SimClock {
         let fail = k.fail_all || k.fail_calls.contains(&n);
         let tag = self.tag;
         if !fail {
-            if let ClockCmd::Step(d) = &c {
+            if let Some(o) = &mut k.osc {
+                o.reanchor();
+                match &c {
+                    ClockCmd::SetFreq(p) => o.adj_ppm = *p,
+                    ClockCmd::Step(d) => o.base_local = (o.base_local + dur_to_bits(*d)).max(0),
+                    ClockCmd::SetProps => {}
+                }
+                let l = o.local(o.true_ns).max(0) as u128;
+                k.now = time_bits(l);
+            } else if let ClockCmd::Step(d) = &c {
                 // a stepped clock reads differently afterwards
                 // and stays inside its own range (the property's timestamp domain [0, 2^63 ns))
                 k.now = (k.now + *d).min(Time::from_nanos((1 << 63) - 1));
@@ -484,6 +545,7 @@ pub struct PortSpec {
     pub asymmetry_ns_frac: i128, // in 2^-32 ns
     pub minor: u8,
     pub rng: f64,
+    pub rng_cycle: Vec<f64>,
 }
 
 impl Default for PortSpec {
@@ -499,6 +561,7 @@ impl Default for PortSpec {
             asymmetry_ns_frac: 0,
             minor: 1,
             rng: 0.5,
+            rng_cycle: vec![],
         }
     }
 }
@@ -622,7 +685,7 @@ impl<'a, F: Filter> Node<'a, F> {
         let mut pending = vec![];
         let mut initial = vec![];
         for (i, ps) in spec.ports.iter().enumerate() {
-            let rng = ChoiceRng::constant(ps.rng);
+            let rng = if ps.rng_cycle.is_empty() { ChoiceRng::constant(ps.rng) } else { ChoiceRng::cycling(ps.rng_cycle.clone()) };
             rngs.push(rng.clone());
             let p = inst.add_port(ps.config(), filter_cfg(i), SimClock::new(clock.clone(), (i + 1) as u16), rng);
             let (p, acts) = p.end_bmca();
